@@ -122,6 +122,42 @@ class StarArgs:
         self.seq = seq
 
 
+_INIT_DEFAULTS = {}
+
+
+def _init_default(cls, name):
+    """Initial value `self.<name> = <simple literal>` written by __init__ of cls or of one of its bases (fresh object per call), else _MISSING."""
+    import inspect
+    import textwrap
+    for k in getattr(cls, "__mro__", ()):
+        if k is object:
+            continue
+        if k not in _INIT_DEFAULTS:
+            table = {}
+            init = k.__dict__.get("__init__")
+            try:
+                tree = ast.parse(textwrap.dedent(inspect.getsource(init))) if init is not None else None
+            except (OSError, TypeError, SyntaxError, IndentationError):
+                tree = None
+            if tree is not None:
+                for n in ast.walk(tree):
+                    tgt, val = None, None
+                    if isinstance(n, ast.Assign) and len(n.targets) == 1:
+                        tgt, val = n.targets[0], n.value
+                    elif isinstance(n, ast.AnnAssign) and n.value is not None:
+                        tgt, val = n.target, n.value
+                    if isinstance(tgt, ast.Attribute) and isinstance(tgt.value, ast.Name) and tgt.value.id == "self":
+                        simple = (isinstance(val, ast.Constant) or (isinstance(val, (ast.Dict, ast.List, ast.Set, ast.Tuple)) and not (getattr(val, "keys", None) or getattr(val, "elts", None)))
+                                  or (isinstance(val, ast.Call) and isinstance(val.func, ast.Name) and val.func.id in ("dict", "list", "set", "tuple") and not val.args and not val.keywords))
+                        if simple and tgt.attr not in table:
+                            table[tgt.attr] = val
+            _INIT_DEFAULTS[k] = table
+        node = _INIT_DEFAULTS[k].get(name)
+        if node is not None:
+            return eval(compile(ast.Expression(node), "<init default>", "eval"), {})  # noqa: S307 - a literal / empty container only
+    return _MISSING
+
+
 class LoopSpec:
     """Inductive invariant for one loop of a function under contract (DESIGN 2.3).
 
@@ -568,6 +604,14 @@ class Interp:
                     return self._bind_class_attr(raw, obj, cls)
             if name == "__class__":
                 return cls
+            # a field the scenario did not give the stand-in, but that the class's own __init__ (or a base's) initialises with a simple
+            # literal ({} / [] / set() / None / False / 0 / ""): a field ADDED to the class later exists with its initial value, as on a real
+            # instance (a harmless change of the code under contract must not look like an AttributeError of the program)
+            if cls is not None and cls is not object and not name.startswith("__"):
+                dv = _init_default(cls, name)
+                if dv is not _MISSING:
+                    obj.fields[name] = dv
+                    return dv
             if cls is object and not name.startswith("__") and self.strict_standins:
                 # a pure stand-in (SObj(object, ...)) models only the fields the scenario gave it: reading another one is a
                 # gap of the scenario, not an AttributeError of the program (exit 2, never a violation or a refusal)
